@@ -2,8 +2,8 @@
 """Source lint for C02 (part of the correspondence, not of the proof): hooks are add-only, so a deleted fence
 cannot be seen through them. In VirtQueue::add, fence(Ordering::SeqCst) must stand between the ring-slot store
 and the Release store of avail.idx. Exit 0 = present; exit 1 + message otherwise."""
-import re, sys
-src = open('/repo/src/queue.rs').read()
+import re, sys, os
+src = open(os.path.join(os.environ.get('VERIF_REPO', '/repo'), 'src/queue.rs')).read()
 m = re.search(r'pub unsafe fn add<.*?\n    }\n', src, re.S)
 if not m: sys.exit('lint_c02: VirtQueue::add not found')
 body = m.group(0)
